@@ -101,6 +101,13 @@ pub fn run(args: &Args, rep: &mut Report) {
                 continue;
             }
             rep.evaluations += 1;
+            if cut % 16 == 0 {
+                crate::report::progress(
+                    "process-death:reading-a-truncated-image",
+                    &format!("the process died while a strict prefix (about {} of {} bytes) of the image of model {} was read", cut, image.len(), name),
+                    &json!({"model": name, "xml": xml, "prefix_about": cut}),
+                );
+            }
             match read_model(&image[..cut]) {
                 ReadOutcome::Err(_) => {
                     rep.count("prefixes_rejected", 1);
